@@ -610,8 +610,16 @@ func (s *shardController) newTermQuorum() (map[model.Server]*proto.EntryId, erro
 	res := make(map[model.Server]*proto.EntryId)
 	var err error
 
+	// While a node swap is in progress, the removed nodes count for the fencing majority but cannot
+	// be elected, and the nodes that replace them hold nothing yet. An entry may have been committed
+	// with the ack of a removed node: the candidates that answered must still include a majority of
+	// the previous ensemble, that is, as many ensemble members on top of a majority as there are
+	// removed nodes.
+	candidatesNeeded := min(len(s.shardMetadata.Ensemble),
+		len(s.shardMetadata.Ensemble)/2+1+len(s.shardMetadata.RemovedNodes))
+
 	// Wait for a majority to respond
-	for successResponses < majority && totalResponses < fencingQuorumSize {
+	for (successResponses < majority || len(res) < candidatesNeeded) && totalResponses < fencingQuorumSize {
 		r := <-ch
 
 		totalResponses++
@@ -627,7 +635,7 @@ func (s *shardController) newTermQuorum() (map[model.Server]*proto.EntryId, erro
 		}
 	}
 
-	if successResponses < majority {
+	if successResponses < majority || len(res) < candidatesNeeded {
 		return nil, errors.Wrap(err, "failed to newTerm shard")
 	}
 
